@@ -2,7 +2,8 @@ package bitlist
 
 // C11 correspondence harness, layer 1: the real CompactBitList (Set/Get/Append/Tighten over
 // anybuffer) against the Lean model `BitList` (driver c11drv, op `bl`).  One line = one script on a
-// fresh list; the answer is every Get result plus the final raw uint16 buffer (bit-exact).
+// fresh list; the answer is every Get result incl. a full read-back (compared); the raw uint16 buffer
+// follows after ` | ` as a layout DIAGNOSTIC only.
 
 import (
 	"fmt"
@@ -12,7 +13,7 @@ import (
 	"testing"
 )
 
-func c11Val(r *VRand, unit int, stats *VStats) uint64 {
+func c11Val(r *VRand, unit int, stats *VStats, allowBad bool) uint64 {
 	var max uint64
 	if unit >= 64 {
 		max = ^uint64(0)
@@ -34,7 +35,7 @@ func c11Val(r *VRand, unit int, stats *VStats) uint64 {
 	case 4:
 		return 0x5555555555555555 & max
 	case 5:
-		if unit < 64 && r.Chance(0.3) { // out of range: Set panics before touching anything
+		if allowBad && unit < 64 && r.Chance(0.3) { // out of range: Set panics before touching anything
 			stats.Inc("bl.value.out_of_range")
 			return max + 1 + uint64(r.Intn(3))
 		}
@@ -80,6 +81,12 @@ func TestVerifC11BitList(t *testing.T) {
 			unit = r.Intn(65)
 		}
 		stats.Inc(fmt.Sprintf("bl.unit.%02d", unit/8*8))
+		// scripts outside the domain the property needs (unit size 0; values that do not fit: Set panics)
+		// are emitted as `blx`: a difference there is a diagnostic, not a violation
+		misuse := unit == 0 || r.Chance(0.12)
+		if misuse {
+			stats.Inc("bl.script.misuse_class")
+		}
 		m := NewCompactBitList(unit)
 		units := 0 // highest written unit index + 1 (tracked here, not read from the struct)
 		nops := r.Range(1, 40)
@@ -92,7 +99,7 @@ func TestVerifC11BitList(t *testing.T) {
 				if r.Chance(0.15) {
 					i = r.Intn(200)
 				}
-				v := c11Val(r, unit, stats)
+				v := c11Val(r, unit, stats, misuse)
 				ops = append(ops, fmt.Sprintf("s%d:%x", i, v))
 				res := VRecover(func() string { m.Set(i, v); return "" })
 				if res != "" {
@@ -102,7 +109,7 @@ func TestVerifC11BitList(t *testing.T) {
 				}
 				stats.Inc("bl.op.set")
 			case 3, 4, 5: // append
-				v := c11Val(r, unit, stats)
+				v := c11Val(r, unit, stats, misuse)
 				ops = append(ops, fmt.Sprintf("a:%x", v))
 				res := VRecover(func() string { m.Append(v); return "" })
 				if res != "" {
@@ -139,7 +146,11 @@ func TestVerifC11BitList(t *testing.T) {
 			}
 			outs = append(outs, res)
 		}
-		op := fmt.Sprintf("bl %d %s", unit, strings.Join(ops, " "))
+		opName := "bl"
+		if misuse {
+			opName = "blx"
+		}
+		op := fmt.Sprintf("%s %d %s", opName, unit, strings.Join(ops, " "))
 		st.Emit(op, fmt.Sprintf("g=%s | st=%s", strings.Join(outs, ","), c11Dump(m)))
 		stats.Sample(op)
 	}
